@@ -28,7 +28,7 @@ from elementpath.datatypes import AnyAtomicType, AbstractDateTime, AnyURI, \
     Timezone, UntypedAtomic, AbstractQName, AbstractBinary
 from elementpath.tdop import Token, MultiLabel
 from elementpath.helpers import ordinal, get_double
-from elementpath.xpath_context import XPathContext, XPathSchemaContext
+from elementpath.xpath_context import XPathContext, XPathSchemaContext, ABSENT_FOCUS
 from elementpath.xpath_nodes import XPathNode, NamespaceNode, DocumentNode, ElementNode
 from elementpath.sequences import xlist
 
@@ -330,6 +330,8 @@ class XPathToken(Token[ta.XPathTokenType]):
             if default_to_context:
                 if context is None:
                     raise self.missing_context() from None
+                if context.item is ABSENT_FOCUS:
+                    raise self.missing_context() from None
                 item = context.item if context.item is not None else context.root
             elif isinstance(context, XPathSchemaContext):
                 return default
@@ -468,6 +470,8 @@ class XPathToken(Token[ta.XPathTokenType]):
         Ref: https://www.w3.org/TR/xpath31/#id-atomization
              https://www.w3.org/TR/xpath20/#dt-typed-value
         """
+        if item is ABSENT_FOCUS:
+            raise self.missing_context()
         match item:
             case None:
                 return
@@ -921,7 +925,9 @@ class XPathToken(Token[ta.XPathTokenType]):
         """
         The string value, as computed by fn:string().
         """
-        if obj is None:
+        if obj is ABSENT_FOCUS:
+            raise self.missing_context()
+        elif obj is None:
             return ''
         elif isinstance(obj, XPathNode):
             if self.parser.version == '1.0':
@@ -962,6 +968,8 @@ class XPathToken(Token[ta.XPathTokenType]):
         """
         The numeric value, as computed by fn:number() on each item. Returns a float value.
         """
+        if obj is ABSENT_FOCUS:
+            raise self.missing_context()
         try:
             if self.parser.version == '1.0':
                 if isinstance(obj, XPathNode):
